@@ -103,7 +103,6 @@ type node struct {
 	checked   bool   // only the active recovery check succeeded since then (may be kept or recycled: both timers can be due at the same instant)
 }
 
-
 func (P) Exec(c *harness.Case) *harness.Outcome {
 	o := harness.NewOutcome()
 	var cfg Cfg
